@@ -165,24 +165,28 @@ RACE_RE = re.compile(r"WARNING: DATA RACE")
 
 
 def race_reports(text):
-    """Split a race log into reports and de-duplicate by the pair of innermost gotree frames."""
+    """Split a race log into reports; de-duplicate by the pair of outermost gotree entry points of the two
+    stacks (then the first report of each pair is kept as the witness, with the innermost frames in the key text)."""
     out = {}
     for blk in text.split("==================\n"):
         if "WARNING: DATA RACE" not in blk:
             continue
-        frames = []
+        outer, inner = [], []
         for part in re.split(r"\n\n", blk):
             if part.lstrip().startswith(("Read at", "Write at", "Previous read", "Previous write", "WARNING: DATA RACE")):
+                fr = []
                 for l in part.splitlines():
                     l = l.strip()
-                    if l.startswith("github.com/evolbioinfo/gotree/"):
+                    if l.startswith("github.com/evolbioinfo/gotree/") and "verifhook" not in l:
                         fn = l[len("github.com/evolbioinfo/gotree/"):]
-                        frames.append(fn[:fn.rfind("(")] if "(" in fn else fn)
-                        break
-        if not frames:
+                        fr.append(fn[:fn.rfind("(")] if "(" in fn else fn)
+                if fr:
+                    inner.append(fr[0])
+                    outer.append(re.sub(r"\.(func\d+|gowrap\d+)(\.\d+)*$", "", fr[-1]))
+        if not outer:
             continue  # no gotree frame: not ours
-        key = " <-> ".join(sorted(set(frames[:2]))) if frames else "?"
-        out.setdefault(key, blk[:4000])
+        key = " <-> ".join(sorted(set(outer[:2])))
+        out.setdefault(key, "innermost frames: %s\n%s" % (" <-> ".join(inner[:2]), blk[:4000]))
     return out
 
 
